@@ -38,7 +38,10 @@ pub fn aigify(gate: &GateModule) -> AigModule {
         let edge = match gate.nets[net as usize].driver {
             NetDriver::Const(false) => AigEdge::CONST0,
             NetDriver::Const(true) => AigEdge::CONST1,
-            NetDriver::PortInput | NetDriver::FfQ(_) | NetDriver::Undriven => {
+            NetDriver::PortInput
+            | NetDriver::FfQ(_)
+            | NetDriver::RamRead(_, _, _)
+            | NetDriver::Undriven => {
                 // Treat any non-combinational driver as a primary input
                 // for the AIG. The caller wires the same NetId back when
                 // re-emitting cells.
@@ -148,6 +151,15 @@ pub fn aigify(gate: &GateModule) -> AigModule {
         // the FF index by position.
         aig.add_sink(ff.d, edge);
     }
+    // Nets the RAM blocks consume (clock, write addr/data/enable/mask, read
+    // addr), in `for_each_ram_input_net` order; read-data nets are RAM
+    // outputs and entered the AIG as primary inputs above.
+    let mut ram_inputs: Vec<NetId> = Vec::new();
+    gate.for_each_ram_input_net(|n| ram_inputs.push(n));
+    for net in ram_inputs {
+        let edge = lower_net(&mut aig, gate, net);
+        aig.add_sink(net, edge);
+    }
 
     aig
 }
@@ -163,6 +175,7 @@ pub fn aig_to_cells(aig: &AigModule, original: &GateModule) -> GateModule {
         nets: Vec::new(),
         cells: Vec::new(),
         ffs: original.ffs.clone(),
+        ram_blocks: original.ram_blocks.clone(),
     };
 
     // Preserve the original net table layout so port / FF references
@@ -175,6 +188,7 @@ pub fn aig_to_cells(aig: &AigModule, original: &GateModule) -> GateModule {
                 NetDriver::Const(b) => NetDriver::Const(b),
                 NetDriver::PortInput => NetDriver::PortInput,
                 NetDriver::FfQ(idx) => NetDriver::FfQ(idx),
+                NetDriver::RamRead(r, p, b) => NetDriver::RamRead(r, p, b),
                 _ => NetDriver::Undriven,
             },
             origin: n.origin,
@@ -278,6 +292,7 @@ pub fn aig_to_cells(aig: &AigModule, original: &GateModule) -> GateModule {
         .map(|p| p.nets.len())
         .sum();
 
+    let mut ram_pins: Vec<NetId> = Vec::new();
     for (i, sink) in aig.sinks.iter().enumerate() {
         let src_net = resolve_fanin(&mut out, &mut pos_net, &mut neg_net, sink.edge);
         if i < port_out_count {
@@ -293,12 +308,21 @@ pub fn aig_to_cells(aig: &AigModule, original: &GateModule) -> GateModule {
                 });
                 out.nets[target as usize].driver = NetDriver::Cell(cell_idx);
             }
-        } else {
+        } else if i < port_out_count + out.ffs.len() {
             // FF D: rewire directly to the resolved net.
             let ff_idx = i - port_out_count;
             out.ffs[ff_idx].d = src_net;
+        } else {
+            // RAM input pin, in `for_each_ram_input_net` order.
+            ram_pins.push(src_net);
         }
     }
+    let mut pin = ram_pins.into_iter();
+    out.for_each_ram_input_net_mut(|n| {
+        if let Some(src) = pin.next() {
+            *n = src;
+        }
+    });
 
     out
 }
